@@ -422,9 +422,42 @@ func (env *Zlisp) ResolveCallable(funcobj Sexp) (Sexp, string, error) {
 	}
 }
 
+// lazyCallPositions tells which of the argument expressions of a call go to a
+// lazy formal: by position, or, when a typed function is called with its
+// arguments written name: value, by the formal each value is written for.
+func lazyCallPositions(function *SexpFunction, args []Sexp) []bool {
+	lazy := make([]bool, len(args))
+	if function == nil || function.user || !function.HasLazyFormals() {
+		return lazy
+	}
+	named := false
+	if function.inputTypes != nil && !function.varargs {
+		for i := 0; i+1 < len(args); i++ {
+			sym, isNamed := namedArgSymbol(args[i])
+			if !isNamed {
+				continue
+			}
+			named = true
+			for j, key := range function.inputTypes.KeyOrder {
+				if formal, ok := key.(*SexpSymbol); ok && formal.number == sym.number {
+					lazy[i+1] = function.IsLazyCallArg(j)
+				}
+			}
+			i++
+		}
+	}
+	if !named {
+		for i := range args {
+			lazy[i] = function.IsLazyCallArg(i)
+		}
+	}
+	return lazy
+}
+
 func (env *Zlisp) PrepareCallExprArgs(function *SexpFunction, args []Sexp) error {
+	lazy := lazyCallPositions(function, args)
 	for i, expr := range args {
-		if function != nil && !function.user && function.HasLazyFormals() && function.IsLazyCallArg(i) {
+		if lazy[i] {
 			env.datastack.PushExpr(NewSourceLazyArg(env, expr))
 			continue
 		}
